@@ -6,6 +6,8 @@ import (
 	"strconv"
 	"strings"
 
+	"golang.org/x/text/unicode/norm"
+
 	sim "github.com/ah-naf/borno/verifsimrt"
 )
 
@@ -14,8 +16,9 @@ import (
 // `range` over a Go map visits its keys.
 
 type C12Val struct {
-	Num int `json:"num,omitempty"`
-	Ref int `json:"ref,omitempty"` // >0: an object
+	Num  int    `json:"num,omitempty"`
+	Ref  int    `json:"ref,omitempty"`  // >0: an object
+	Text string `json:"text,omitempty"` // non-numeric scalar: what printing it shows (nil, true, false, a string)
 }
 
 type C12Block struct {
@@ -32,7 +35,9 @@ type C12Expect struct {
 	Ops      []string   `json:"ops"`
 }
 
-var c12Keys = []string{"alpha", "beta", "gamma", "delta", "ক", "নাম"} // ক, নাম
+// key pool: Latin, Bangla, two names that differ only in letter case, and one
+// containing U+09DF (a letter whose NFC form is its decomposition)
+var c12Keys = []string{"alpha", "beta", "gamma", "delta", "\u0995", "\u09a8\u09be\u09ae", "ID", "id", "\u09ac\u09df\u09b8"}
 
 type c12Gen struct {
 	s      Src
@@ -51,6 +56,29 @@ type c12Gen struct {
 
 func (g *c12Gen) add(s string) int { g.lines = append(g.lines, s); return len(g.lines) }
 func (g *c12Gen) val() int         { g.nval++; return 100 + g.nval }
+
+// value draws a property value: mostly a unique number, sometimes nil (literal
+// or from a function that returns nothing), a boolean or a unique string.
+func (g *c12Gen) value() (string, C12Val) {
+	switch g.s.Int("valkind", 0, 9) {
+	case 0:
+		return "nil", C12Val{Text: "nil"}
+	case 1:
+		return "noret()", C12Val{Text: "nil"}
+	case 2:
+		if Bool(g.s, "boolv") {
+			return KwTrue, C12Val{Text: "true"}
+		}
+		return KwFalse, C12Val{Text: "false"}
+	case 3:
+		g.nval++
+		t := fmt.Sprintf("s%d", g.nval)
+		return "\"" + t + "\"", C12Val{Text: t}
+	default:
+		v := g.val()
+		return fmt.Sprint(v), C12Val{Num: v}
+	}
+}
 
 func (g *c12Gen) newObj(m map[string]C12Val) int {
 	g.nextID++
@@ -89,9 +117,9 @@ func (g *c12Gen) literal(nkeys int) (string, map[string]C12Val) {
 	m := map[string]C12Val{}
 	var parts []string
 	for _, k := range perm[:nkeys] {
-		v := g.val()
-		m[k] = C12Val{Num: v}
-		parts = append(parts, fmt.Sprintf("%s: %d", k, v))
+		txt, v := g.value()
+		m[k] = v
+		parts = append(parts, fmt.Sprintf("%s: %s", k, txt))
 	}
 	return "{" + strings.Join(parts, ", ") + "}", m
 }
@@ -158,6 +186,7 @@ func (g *c12Gen) prelude() {
 	g.add(fmt.Sprintf("%s wr2(o, v) { o.delta = v; %s o; }", KwFun, KwReturn))
 	g.add(fmt.Sprintf("%s mk() { %s {alpha: 1, beta: 2, gamma: 3}; }", KwFun, KwReturn))
 	g.add(fmt.Sprintf("%s del(o, k) { %s(o, k); }", KwFun, FnDelete))
+	g.add(fmt.Sprintf("%s noret() { }", KwFun))
 }
 
 func c12Program(s Src, maxOps int) (string, *C12Expect) {
@@ -202,9 +231,9 @@ func c12Program(s Src, maxOps int) (string, *C12Expect) {
 			} else {
 				k = Pick(s, "key", c12Keys)
 			}
-			val := g.val()
-			g.add(fmt.Sprintf("%s.%s = %d;", v, k, val))
-			g.heap[id][k] = C12Val{Num: val}
+			txt, val := g.value()
+			g.add(fmt.Sprintf("%s.%s = %s;", v, k, txt))
+			g.heap[id][k] = val
 		case "delete", "fn-delete":
 			v := g.pickVar("target")
 			id := g.vars[v]
@@ -223,9 +252,9 @@ func c12Program(s Src, maxOps int) (string, *C12Expect) {
 			delete(g.heap[id], k)
 		case "fn-write":
 			v := g.pickVar("target")
-			val := g.val()
-			g.add(fmt.Sprintf("wr1(%s, %d);", v, val))
-			g.heap[g.vars[v]]["alpha"] = C12Val{Num: val}
+			txt, val := g.value()
+			g.add(fmt.Sprintf("wr1(%s, %s);", v, txt))
+			g.heap[g.vars[v]]["alpha"] = val
 		case "fn-write-ret":
 			v := g.pickVar("target")
 			dst := Pick(s, "var", varNames)
@@ -436,8 +465,9 @@ func c12Eval(cs *Case, ctx *EvalCtx) []Violation {
 			if nontrivial {
 				st.Seen("c12_ops_x_orders", cs.Sig+"|"+b.String())
 			}
-			// consecutive ORDER events at the keys / values sites with different decisions
-			var prevSite string
+			// two consecutive ranges over the same >=2-key object (the key listing and
+			// the value listing of one observation) decided differently
+			var prevN int64 = -1
 			var prevD, idx int
 			for _, e := range r.Events {
 				if e.Kind != "ORDER" {
@@ -448,10 +478,10 @@ func c12Eval(cs *Case, ctx *EvalCtx) []Violation {
 					d = c.Orders[idx]
 				}
 				idx++
-				if e.N >= 2 && prevSite != "" && prevSite != e.Data && strings.Contains(e.Data, "nativeFunctionObject") && strings.Contains(prevSite, "nativeFunctionObject") && d != prevD {
+				if e.N >= 2 && prevN == e.N && d != prevD {
 					st.Count("reach.keys_and_values_ranged_in_different_orders", 1)
 				}
-				prevSite, prevD = e.Data, d
+				prevN, prevD = e.N, d
 			}
 		}
 		for _, op := range ex.Ops {
@@ -512,7 +542,12 @@ func c12CheckRun(cs *Case, ex *C12Expect, run int, o Obs) *Violation {
 			if !ok {
 				return mk("output-truncated", sig, "listing cut short")
 			}
-			mv, present := b.Model[k]
+			mv, present := C12Val{}, false
+			for mk, v := range b.Model {
+				if nfc(mk) == k {
+					mv, present = v, true
+				}
+			}
 			if !present {
 				return mk("listing-unknown-key", sig, fmt.Sprintf("step %d %s after %s: listed key %q is not a property (model %v)", b.Step, b.Var, b.Op, k, sortedKeys(b.Model)))
 			}
@@ -538,7 +573,7 @@ func c12CheckRun(cs *Case, ex *C12Expect, run int, o Obs) *Violation {
 		}
 		whole, _ := next()
 		for k := range b.Model {
-			if !strings.Contains(whole, k+":") {
+			if !strings.Contains(whole, nfc(k)+":") {
 				return mk("print-missing-property", sig, fmt.Sprintf("step %d: printing %s shows %q, property %q is missing", b.Step, b.Var, whole, k))
 			}
 		}
@@ -576,6 +611,9 @@ func c12ValMatches(v C12Val, line string) bool {
 	if v.Ref > 0 {
 		return strings.HasPrefix(line, "map[")
 	}
+	if v.Text != "" {
+		return line == v.Text
+	}
 	return line == strconv.Itoa(v.Num)
 }
 
@@ -583,7 +621,13 @@ func c12ValString(v C12Val) string {
 	if v.Ref > 0 {
 		return "an object"
 	}
+	if v.Text != "" {
+		return v.Text
+	}
 	return strconv.Itoa(v.Num)
 }
+
+// nfc: দেখাও prints text in NFC, so listed keys are compared in that form
+func nfc(s string) string { return norm.NFC.String(s) }
 
 var _ = sim.DefaultBudget
